@@ -553,13 +553,37 @@ type vPoll struct {
 	done    int32
 }
 
-func (p *vPoll) reply(code int, body []byte) {
+// The proxy's slot counter as it stood when the previous poll was answered.
+// Slots are taken only by the proxy's main loop, one before each round of
+// polling, and a round that is told "no match" polls again without taking
+// another; handlers only give slots back. So the load figure of the next poll
+// was computed from a counter of at most this value, plus one unless the
+// previous answer was "no match".
+var (
+	vCounterAtReply   int64 = -1
+	vReplyKeepsRound  int32
+	vReplySeq         int64
+	vReplyBookkeeping sync.Mutex
+)
+
+func (p *vPoll) reply(code int, body []byte) { p.replyKind(code, body, false) }
+
+func (p *vPoll) replyKind(code int, body []byte, keepsRound bool) {
 	if atomic.CompareAndSwapInt32(&p.done, 0, 1) {
+		vReplyBookkeeping.Lock()
+		atomic.StoreInt64(&vCounterAtReply, vClientCounter())
+		if keepsRound {
+			atomic.StoreInt32(&vReplyKeepsRound, 1)
+		} else {
+			atomic.StoreInt32(&vReplyKeepsRound, 0)
+		}
+		atomic.AddInt64(&vReplySeq, 1)
+		vReplyBookkeeping.Unlock()
 		p.resp <- vReply{code, body}
 	}
 }
 
-func (p *vPoll) replyNoMatch() { p.reply(200, []byte(`{"Status":"no match"}`)) }
+func (p *vPoll) replyNoMatch() { p.replyKind(200, []byte(`{"Status":"no match"}`), true) }
 
 func vMatchBody(offer, relayURL string) []byte {
 	b, _ := json.Marshal(map[string]string{"Status": "client match", "Offer": offer, "NAT": "unknown", "RelayURL": relayURL})
@@ -623,6 +647,11 @@ func (b *vBroker) handlePoll(w http.ResponseWriter, r *http.Request) {
 	case <-time.After(27 * time.Second): // the proxy's header timeout is 30 s
 		if atomic.CompareAndSwapInt32(&p.done, 0, 1) {
 			atomic.AddInt64(&b.expired, 1)
+			vReplyBookkeeping.Lock()
+			atomic.StoreInt64(&vCounterAtReply, vClientCounter())
+			atomic.StoreInt32(&vReplyKeepsRound, 1)
+			atomic.AddInt64(&vReplySeq, 1)
+			vReplyBookkeeping.Unlock()
 			rep = vReply{200, []byte(`{"Status":"no match"}`)}
 		} else {
 			rep = <-p.resp
